@@ -105,6 +105,12 @@ func main() {
 	seen := map[[32]byte]bool{}
 	failKinds := map[string]int{}
 
+	// 0. (view audit) keys in the last second of their life
+	if hx.ViewAudit && !*noCorpus {
+		if msg := hx.ViewsInTheLastSecond(); msg != "" {
+			sum.Failures = append(sum.Failures, Failure{Kind: "audit", Detail: msg})
+		}
+	}
 	// 1. the corpus: witnesses of repaired defects and of known findings
 	if !*noCorpus {
 		for i, e := range hx.Corpus {
